@@ -130,10 +130,11 @@ const (
 	opLong
 	opRotate
 	opTruncWrite
+	opLongFragment
 	nOps
 )
 
-var opNames = []string{"append2", "fragment", "complete-fragment", "long-line", "rotate", "truncate+write"}
+var opNames = []string{"append2", "fragment", "complete-fragment", "long-line", "rotate", "truncate+write", "long-fragment"}
 
 type world struct {
 	fs       *memFS
@@ -170,6 +171,12 @@ func (w *world) apply(k opKind) {
 		w.send(fsnotify.Write, live)
 	case opFragment:
 		f := "frag-" + w.line()
+		w.fs.files[live] = append(w.fs.files[live], []byte(f)...)
+		w.pending += f
+		w.send(fsnotify.Write, live)
+	case opLongFragment:
+		// an unterminated tail longer than the 4096-byte read buffer
+		f := "lfrag-" + w.line() + strings.Repeat("F", 5000)
 		w.fs.files[live] = append(w.fs.files[live], []byte(f)...)
 		w.pending += f
 		w.send(fsnotify.Write, live)
@@ -460,7 +467,7 @@ func runC20(t *testing.T, run *mc.Run) int {
 					pend := strings.HasSuffix(d.Name, "fragment+2-rotated") && len(seq) == 0
 					for _, o := range seq {
 						switch o {
-						case opFragment:
+						case opFragment, opLongFragment:
 							pend = true
 						case opAppend2, opComplete, opLong, opRotate, opTruncWrite:
 							pend = false
@@ -488,7 +495,7 @@ func runC20(t *testing.T, run *mc.Run) int {
 		samples = samples[:8]
 	}
 	cov := mc.Coverage{Level: "model_checking", States: n, Transitions: n * depth, Traces: n, Evaluations: n, Distinct: withRotation, Exhaustive: complete, Samples: samples,
-		Rule:  fmt.Sprintf("the real LogDirReader loop in a synctest bubble over an in-memory file system: every sequence of <=%d operations over {append 2 lines, append a fragment, complete it, append a 5 kB line, rotate (rename+create chain), truncate then write} from %d small initial directories, each change followed by its fsnotify events one at a time with quiescence in between; plus %d initial directories with 0..12 and sparse (10,100,999) rotated files x {start only, append, rotate+append}. Oracle: strings from Lines() == reference list. distinct_nontrivial = sequences containing a rotation or truncation", depth, len(small), len(big)),
+		Rule:  fmt.Sprintf("the real LogDirReader loop in a synctest bubble over an in-memory file system: every sequence of <=%d operations over {append 2 lines, append a fragment, append a 5 kB fragment, complete it, append a 5 kB line, rotate (rename+create chain), truncate then write} from %d small initial directories, each change followed by its fsnotify events one at a time with quiescence in between; plus %d initial directories with 0..12 and sparse (10,100,999) rotated files x {start only, append, rotate+append}. Oracle: strings from Lines() == reference list. distinct_nontrivial = sequences containing a rotation or truncation", depth, len(small), len(big)),
 		Extra: map[string]any{"max_ops": depth, "initial_dirs": len(small) + len(big)}}
 	cov.Assumptions = []string{"testing/synctest semantics; in-memory file system with read-through handles; events delivered one at a time (the property's proviso)"}
 	return run.Finish(cov)
